@@ -131,8 +131,9 @@ end Kodama
                    hypotheses; `C14_linkage_single_complete` unconditionally (single needs NO
                    hypothesis on the numbers at all, complete `OrderLaws` + NaN-free input).
 
-NOT proved: `ChainReducible` for average / weighted / Ward over IEEE floats (FALSE there, ~11% of tied
-updates).  For these three methods on floats the bound rests on (i) the exact model/hook count
+NOT proved: `ChainReducible` for weighted / Ward over IEEE floats (FALSE there, ~11% of tied
+updates; for AVERAGE it is a theorem since the `fix:` commit of the crate, `Props/C14Average.lean`:
+`C14_nnchain_average`, `C14_linkage_average`).  For these two methods on floats the bound rests on (i) the exact model/hook count
 correspondence and (ii) the oracle checking the bound on the real crate on adversarial inputs up to
 n = 2000; the measured worst case is 3.5 n².
 -/
